@@ -527,21 +527,30 @@ func c19SSEClientChunking(t *testing.T, cases *verifx.Cases, thorough bool) {
 		w, _ := jsonrpc2.EncodeMessage(m)
 		want = append(want, w)
 	}
-	for _, eol := range []string{"\n", "\r\n"} {
+	// naming: a server may leave out the "event: message" line - an event without a name is a message
+	// event by the SSE specification - for all messages, or for some
+	for _, ec := range []struct{ eol, naming string }{{"\n", "named"}, {"\r\n", "named"}, {"\n", "unnamed"}, {"\r\n", "unnamed"}, {"\n", "mixed"}} {
+		eol := ec.eol
 		stream := "event: endpoint" + eol + "data: /messages?sessionid=1" + eol + eol
 		for i, tx := range texts {
-			stream += "event: message" + eol + fmt.Sprintf("id: %d", i) + eol + "data: " + tx + eol + eol
+			if ec.naming == "named" || (ec.naming == "mixed" && i == 0) {
+				stream += "event: message" + eol
+			}
+			stream += fmt.Sprintf("id: %d", i) + eol + "data: " + tx + eol + eol
 		}
 		for i := 0; i <= len(stream); i++ {
 			for j := i; j <= len(stream); j++ {
 				if !thorough && j != i && j != len(stream) && j-i > 2 {
 					continue
 				}
+				if ec.naming != "named" && j != i {
+					continue // the other spellings: two pieces, cut at every offset
+				}
 				idx, mine := cases.Next()
 				if !mine {
 					continue
 				}
-				desc := fmt.Sprintf("eol=%q cut at %d and %d of %d bytes", eol, i, j, len(stream))
+				desc := fmt.Sprintf("eol=%q message events %s, cut at %d and %d of %d bytes", eol, ec.naming, i, j, len(stream))
 				bad := ""
 				func() {
 					defer func() {
@@ -580,7 +589,7 @@ func c19SSEClientChunking(t *testing.T, cases *verifx.Cases, thorough bool) {
 					})
 				}()
 				if bad != "" {
-					cases.Violate(idx, fmt.Sprintf("c19 sse-client-chunking eol=%q", eol), bad+" ["+desc+"]", 3)
+					cases.Violate(idx, fmt.Sprintf("c19 sse-client-chunking eol=%q %s", eol, ec.naming), bad+" ["+desc+"]", 3)
 					continue
 				}
 				cases.Record(idx, fmt.Sprintf("sse client chunking eol=%q ok", eol), 3, func() string { return desc })
